@@ -103,16 +103,19 @@ def cpp_facts():
     # every member function of threadsafe_queue that touches m_data / m_stopped takes m_mutex first
     # (constructor / destructor excepted: no concurrent access is allowed there)
     bodies = re.findall(r"\n\s*(?:[\w:<>&\s\*]+?)\s+(\w+)\s*\([^)]*\)\s*(?:const)?\s*\{(.*?)\n        \}", tq, re.S)
-    locked = True
-    nmeth = 0
+    lock_re = r"std::(?:lock_guard|unique_lock|scoped_lock)<std::mutex>\s+\w+\(m_mutex\);"
+    locked = {"m_data": True, "m_stopped": True}
+    nmeth = {"m_data": 0, "m_stopped": 0}
     for name, body in bodies:
-        if "m_data" in body or "m_stopped" in body:
-            nmeth += 1
-            first = body.strip().splitlines()[0] if body.strip() else ""
-            inner = re.search(r"\{\s*std::(?:lock_guard|unique_lock|scoped_lock)<std::mutex>\s+\w+\(m_mutex\);", body)
-            if not (re.match(r"\s*std::(?:lock_guard|unique_lock|scoped_lock)<std::mutex>\s+\w+\(m_mutex\);", first) or inner):
-                locked = False
-    facts["queueMethodsLocked"] = locked and nmeth >= 6
+        for var in locked:
+            if var in body:
+                nmeth[var] += 1
+                # the lock must be taken before the first mention of the variable
+                before = body[:body.index(var)]
+                if not re.search(lock_re, before):
+                    locked[var] = False
+    facts["queueMethodsLocked"] = locked["m_data"] and nmeth["m_data"] >= 6
+    facts["stoppedAccessLocked"] = locked["m_stopped"] and nmeth["m_stopped"] >= 3
     # side conditions of modelling a condition wait as "may proceed exactly when its predicate holds":
     # every wait has the predicate (!empty || stopped), every push notifies, wake_up sets the flag under the
     # mutex and notifies all waiters
@@ -124,7 +127,7 @@ def cpp_facts():
     pushes = by_name.get("push", [])
     facts["pushNotifies"] = len(pushes) >= 1 and all(re.search(r"m_cond\.notify_(one|all)\(\)", b) for b in pushes)
     wk = by_name.get("wake_up", [])
-    facts["wakeNotifiesAll"] = len(wk) == 1 and re.search(r"m_stopped\s*=\s*true;.*m_cond\.notify_all\(\)", wk[0], re.S) is not None
+    facts["wakeNotifiesAll"] = len(wk) == 1 and re.search(lock_re + r".*m_stopped\s*=\s*true;.*m_cond\.notify_all\(\)", wk[0], re.S) is not None
     # the worker re-tests the shutdown flag after every pop, before handing the item over
     facts["workerRetestsFlag"] = re.search(r"wait_and_pop\(\)\)\s*&&\s*\(?\s*!m_shutting_down", td) is not None
     # the worker hand-shake lives in stop(), the base destructor calls it, and the generated state machine
